@@ -91,4 +91,58 @@ theorem submitStops_matches_source (refused : Bool) :
     (if Gen.Src.c14SubmitStops refused then SubPc.failDone else SubPc.loop) =
       (if refused then SubPc.failDone else SubPc.loop) := rfl
 
+theorem resultsOrder_matches_source' (l : List Nat) :
+    (if Gen.Src.c14ResultsReverse l.length then l.reverse else l) = l.reverse := by
+  cases l with
+  | nil => simp [Gen.Src.c14ResultsReverse]
+  | cons a t =>
+    cases t with
+    | nil => simp [Gen.Src.c14ResultsReverse]
+    | cons b t' => simp [Gen.Src.c14ResultsReverse]
+
+/-! ### map-entry decisions of the result store (`Model/C14.lean`, direct use of the public API) -/
+
+/-- `storeResult`: the entry of the group is re-created exactly on the source's condition `!ok` (first
+arm, worker.go:369; the extractor's `cond` kind takes the FIRST condition with a given text, so the second
+arm — the same text `!ok` about `resultNotify` — is pinned by the correspondence cases only) -/
+theorem storeCreates_matches_source (st : Store) (g : Nat) (found : Bool) :
+    st.dataEnsured g found = (if Gen.Src.c14StoreCreates found then setAt st.data g (some []) else st.data) := rfl
+
+/-- `Do`: the `wg.mu` section creates the group's entry exactly when it is missing -/
+theorem doCreates_matches_source (st : Store) (g : Nat) :
+    (st.ensure g).data = (if Gen.Src.c14DoCreates (st.data g).isSome then setAt st.data g (some []) else st.data) := by
+  cases h : st.data g <;> simp [Store.ensure, Gen.Src.c14DoCreates, h]
+
+/-- `NotifyResult`: a missing channel is created (empty), an existing one is returned: the token a
+non-blocking receive finds -/
+theorem notifyCreates_matches_source (st : Store) (g : Nat) :
+    (st.poll g).1 = (if Gen.Src.c14NotifyCreates (st.notify g).isSome then false else (st.notify g).getD false) := by
+  cases h : st.notify g <;> simp [Store.poll, Gen.Src.c14NotifyCreates, h]
+
+/-- `Results`: nothing for a group without entry, otherwise the entry oldest first (reversed when it has
+more than one element) -/
+theorem resultsMissing_matches_source (st : Store) (g : Nat) :
+    (st.results g).1 =
+      (if Gen.Src.c14ResultsMissing (st.data g).isSome then []
+       else if Gen.Src.c14ResultsReverse ((st.data g).getD []).length then ((st.data g).getD []).reverse
+       else (st.data g).getD []) := by
+  cases h : st.data g with
+  | none => simp [Store.results, Gen.Src.c14ResultsMissing, h]
+  | some l =>
+    have := resultsOrder_matches_source' l
+    simp only [Store.results, Gen.Src.c14ResultsMissing, h, Option.isSome_some, Bool.not_true, Bool.false_eq_true,
+      if_false, Option.getD_some]
+    exact this.symm
+
+/-- `Queue.Pop` of the direct model: error exactly on the source's condition `len(q.values) == 0` -/
+theorem queuePop_matches_source (q : List Nat) :
+    queuePop q = (if Gen.Src.c14PopEmpty q.length then (none, [])
+                  else (q.head?, if Gen.Src.c14PopKeepsRest q.length then q.tail else [])) := by
+  cases q with
+  | nil => simp [queuePop, Gen.Src.c14PopEmpty]
+  | cons j r =>
+    cases r with
+    | nil => simp [queuePop, Gen.Src.c14PopEmpty, Gen.Src.c14PopKeepsRest]
+    | cons k r' => simp [queuePop, Gen.Src.c14PopEmpty, Gen.Src.c14PopKeepsRest]
+
 end AutoVerif.C14
